@@ -355,8 +355,17 @@ func (fc *FnCtx) mapComps(mt *types.Map) (mv, md, ks, vs string) {
 	ks, vs = fc.P.SortOf(mt.Key()), fc.P.SortOf(mt.Elem())
 	mv = fmt.Sprintf("MV:%s:%s", ks, vs)
 	md = fmt.Sprintf("MD:%s:%s", ks, vs)
+	_, seen := fc.compSort[mv]
 	fc.compDecl(mv, fmt.Sprintf("(Array Int (Array %s %s))", ks, vs))
 	fc.compDecl(md, fmt.Sprintf("(Array Int (Array %s Bool))", ks))
+	if !seen && fc.entry != nil {
+		switch mt.Elem().Underlying().(type) {
+		case *types.Pointer, *types.Map:
+			// heap well-formedness at entry: references stored in maps were allocated before the function started
+			v0 := fc.lookup(fc.entry, mv)
+			fc.fact("", "(forall ((m Int) (k %s)) (! (and (>= (select (select %s m) k) 0) (< (select (select %s m) k) %s)) :pattern ((select (select %s m) k))))", ks, v0, v0, fc.entry.comp["TOP"], v0)
+		}
+	}
 	return
 }
 
